@@ -68,6 +68,23 @@ def inverse_only_when_unreferenced(ctx, rule='inverse-only-when-unreferenced'):
                                     for x_ in s_:
                                         find_map(x_)
                             find_map(t_)
+                            if cl is None:
+                                # the mapping may sit in a private helper applied to the list: look at what the helper returns
+                                def find_helper(s_):
+                                    if isinstance(s_, tuple) and s_:
+                                        if s_[0] == 'call' and s_[1].startswith(R) and db.body(s_[1]) is not None:
+                                            return s_[1]
+                                        for x_ in s_:
+                                            h_ = find_helper(x_)
+                                            if h_:
+                                                return h_
+                                    return None
+                                hp = find_helper(t_)
+                                hb_ = db.body(hp) if hp else None
+                                if hb_ is not None and 'HashSet<types::node_id::NodeId>' in hb_.locals[0]:
+                                    Fh_ = ctx.facts(hb_)
+                                    for d_ in hb_.defs().get(0, []):
+                                        find_map(Fh_.sym_call(d_[2]) if d_[0] == 'call' else Fh_.sym_rvalue(d_[3], 0, d_[1]))
                             cb_ = db.body(cl) if cl else None
                             if cb_ is None:
                                 diff_problem.append('a set of the difference is not built by mapping the reference list'); continue
